@@ -10,6 +10,13 @@ n_g == << "g" >>  n_x == << "x" >>  n_y == << "y" >>  n_z == << "z" >>  n_k == <
 n_acc == << "a", "c", "c" >>
 
 NoEnv == << >>
+NoEnvNames == << >>
+(* C18: two variables set, one name never set *)
+n_AV == << "A", "V" >>  n_B2 == << "B", "_", "2" >>  n_UNSET == << "U", "N", "S", "E", "T" >>
+Env2 == << Fld(n_AV, StrV(<< "v", "1" >>)), Fld(n_B2, StrV(<< >>)) >>
+EnvNames3 == << n_AV, n_B2, n_UNSET >>
+FldsEnv == << n_a, N_env >>
+FamEnv == {"lit", "var", "bin", "env", "tuple", "dot", "let", "exprstmt", "badlet", "envlet", "is"}
 NoPrelude == << >>
 
 (* ---- AST shorthands and preludes ---- *)
